@@ -83,6 +83,7 @@ type Chain struct {
 	txIndex map[string]int
 	ProbeDenoms []string
 	ProbeAssets []string
+	RestartEveryBlock bool // C19: re-instantiate the application from its database after every committed block
 }
 
 // Obs is one observation point inside a block.
@@ -340,6 +341,9 @@ func (c *Chain) NextBlock(dt int64) (outs []txOutcome) {
 	}
 	hash := append([]byte{}, c.App.LastCommitID().Hash...)
 	c.Hashes = append(c.Hashes, hash)
+	if c.RestartEveryBlock {
+		c.Restart()
+	}
 	var rd strings.Builder
 	for i, r := range res.TxResults {
 		outs = append(outs, txOutcome{Spec: specs[i], Code: r.Code, Log: r.Log, Res: r})
